@@ -505,6 +505,15 @@ impl QuorumSamplingStrategy for PartitionSampler {
     }
 }
 
+/// Number of seats a validator is guaranteed by the Fait Accompli samplers.
+///
+/// This is `floor(stake / total_stake * k)`, computed in exact integer arithmetic.
+/// Floating point would round e.g. `1/103 * 103` below `1` and lose the seat,
+/// and lamport-scale stakes do not fit the mantissa of an `f64`.
+fn guaranteed_samples(stake: Stake, total_stake: Stake, k: u64) -> u64 {
+    (u128::from(stake.inner()) * u128::from(k) / u128::from(total_stake.inner())) as u64
+}
+
 /// A sampler that uses the FA1-F committee sampling strategy.
 ///
 /// This is a strict improvement over performing IID stake-weighted sampling.
@@ -533,9 +542,10 @@ impl FaitAccompli1Sampler<PartitionSampler> {
         let mut required_samples = Vec::new();
         let mut validators_truncated_stake = validators.clone();
         for v in &mut validators_truncated_stake {
-            let frac_stake = v.stake.inner() as f64 / total_stake.inner() as f64;
-            let samples = (frac_stake * k as f64).floor() as u64;
-            v.stake -= Stake::new(samples * total_stake.inner() / k);
+            let samples = guaranteed_samples(v.stake, total_stake, k);
+            // cannot exceed `v.stake`, as `samples <= stake * k / total_stake`
+            let taken = u128::from(samples) * u128::from(total_stake.inner()) / u128::from(k);
+            v.stake -= Stake::new(taken as u64);
             required_samples.extend((0..samples).map(|_| v.id));
         }
         let all_zero = validators_truncated_stake
@@ -565,9 +575,10 @@ impl FaitAccompli1Sampler<IidQuorumSampler<StakeWeightedSampler>> {
         let mut required_samples = Vec::new();
         let mut validators_truncated_stake = validators.clone();
         for v in &mut validators_truncated_stake {
-            let frac_stake = v.stake.inner() as f64 / total_stake.inner() as f64;
-            let samples = (frac_stake * k as f64).floor() as u64;
-            v.stake -= Stake::new(samples * total_stake.inner() / k);
+            let samples = guaranteed_samples(v.stake, total_stake, k);
+            // cannot exceed `v.stake`, as `samples <= stake * k / total_stake`
+            let taken = u128::from(samples) * u128::from(total_stake.inner()) / u128::from(k);
+            v.stake -= Stake::new(taken as u64);
             required_samples.extend((0..samples).map(|_| v.id));
         }
         let all_zero = validators_truncated_stake
@@ -636,8 +647,7 @@ impl FaitAccompli2Sampler {
         let total_stake: Stake = validators.iter().map(|v| v.stake).sum();
         let mut required_samples = Vec::new();
         for v in &validators {
-            let frac_stake = v.stake.inner() as f64 / total_stake.inner() as f64;
-            let samples = (frac_stake * k as f64).floor() as u64;
+            let samples = guaranteed_samples(v.stake, total_stake, k);
             required_samples.extend((0..samples).map(|_| v.id));
         }
 
